@@ -330,6 +330,33 @@ NEXT_RESOLVE = {"core::str::Chars": "<core::str::Chars as core::iter::Iterator>:
                 "core::ops::RangeInclusive": "core::iter::range::<impl core::iter::Iterator for core::ops::RangeInclusive<A>>::next"}
 
 
+def lower_int_conversions(rec, stats):
+    """`x.into()` / `U::from(x)` between primitive integers: core implements From only for the value-preserving conversions (anything else does
+    not compile), so the call is the cast."""
+    changed = False
+    for blk in rec["blocks"]:
+        t = blk["term"]
+        if t["k"] != "call" or t.get("target") is None or t["dest"]["proj"] or len(t.get("args", [])) != 1:
+            continue
+        c = t.get("callee")
+        ca = t.get("cargs") or []
+        if c == "core::convert::Into::into" and len(ca) == 2:
+            sty, dty = ca[0], ca[1]
+        elif c == "core::convert::From::from" and len(ca) == 2:
+            dty, sty = ca[0], ca[1]
+        else:
+            continue
+        if not (isinstance(sty, dict) and isinstance(dty, dict) and sty.get("k") in ("int", "uint") and dty.get("k") in ("int", "uint")):
+            continue
+        blk["stmts"] = list(blk["stmts"]) + [{"k": "assign", "place": copy.deepcopy(t["dest"]),
+                                             "rv": {"k": "cast", "kind": "IntToInt", "op": copy.deepcopy(t["args"][0]), "ty": dty}, "line": t.get("line")}]
+        blk["term"] = {"k": "goto", "target": t["target"]}
+        changed = True
+    if changed:
+        stats.setdefault(rec["path"], []).append("int-from")
+    return changed
+
+
 def reresolve(rec, stats):
     """After a generic helper was inlined with its type parameters substituted, trait calls on the now concrete iterator type get the path rustc
     would have resolved them to (`Iterator::next` on `Chars`), and `into_iter` of an iterator is the identity."""
@@ -1407,6 +1434,44 @@ def desugar(rec, prog, stats):
                                                  "line": line}], "term": {"k": "goto", "target": t["target"]}})
                 rec["blocks"].append({"stmts": [], "term": {"k": "unreachable"}})
                 stats.setdefault(rec["path"], []).append("desugar:Option::filter")
+                changed = True
+                continue
+        if c in ("core::option::Option::<T>::and_then", "core::result::Result::<T, E>::and_then") and len(t["args"]) == 2 and not t["dest"]["proj"] \
+                and all(a_["k"] in ("move", "copy") and not a_["place"]["proj"] for a_ in t["args"]) \
+                and rec["locals"][t["args"][1]["place"]["local"]].get("k") == "closure":
+            # o.and_then(f)  ->  match o { Some(v) => f(v), None => None }        r.and_then(f)  ->  match r { Ok(v) => f(v), Err(e) => Err(e) }
+            ol, fl = t["args"][0]["place"]["local"], t["args"][1]["place"]["local"]
+            oty = rec["locals"][ol]
+            fty = rec["locals"][fl]
+            dty = rec["locals"][t["dest"]["local"]]
+            is_opt = c.startswith("core::option")
+            if oty.get("k") == "adt" and oty.get("args") and dty.get("k") == "adt" and (is_opt or len(oty["args"]) == 2):
+                pay = oty["args"][0]
+                hit = (1, "Some") if is_opt else (0, "Ok")
+                line = t.get("line")
+                isz = {"k": "int", "bits": 64, "name": "isize"}
+                n = len(rec["locals"])
+                rec["locals"].extend([isz, pay, {"k": "tuple", "elems": [pay]}])
+                d, v, tup = range(n, n + 3)
+                nb = len(rec["blocks"])
+                HIT, MISS, UNR = nb, nb + 1, nb + 2
+                blk["stmts"] = list(blk["stmts"]) + [{"k": "assign", "place": {"local": d, "proj": []}, "rv": {"k": "discr", "place": {"local": ol, "proj": []}}, "line": line}]
+                blk["term"] = {"k": "switch", "discr": {"k": "move", "place": {"local": d, "proj": []}}, "dty": isz, "arms": [[hit[0], HIT], [1 - hit[0], MISS]], "otherwise": UNR, "line": line}
+                rec["blocks"].append({"stmts": [
+                    {"k": "assign", "place": {"local": v, "proj": []},
+                     "rv": {"k": "use", "op": {"k": "move", "place": {"local": ol, "proj": [{"k": "downcast", "variant": hit[0], "name": hit[1]}, {"k": "field", "i": 0, "ty": pay}]}}}, "line": line},
+                    {"k": "assign", "place": {"local": tup, "proj": []}, "rv": {"k": "aggregate", "agg": "tuple", "ops": [{"k": "move", "place": {"local": v, "proj": []}}]}, "line": line}],
+                    "term": {"k": "call", "callee": "core::ops::FnOnce::call_once", "resolved": None, "cargs": [fty, {"k": "tuple", "elems": [pay]}], "rargs": [],
+                             "args": [{"k": "move", "place": {"local": fl, "proj": []}}, {"k": "move", "place": {"local": tup, "proj": []}}], "dest": copy.deepcopy(t["dest"]),
+                             "target": t["target"], "line": line}})
+                if is_opt:
+                    miss = {"k": "aggregate", "agg": "adt", "path": "core::option::Option", "variant": 0, "vname": "None", "args": dty.get("args", []), "is_enum": True, "ops": []}
+                else:
+                    miss = {"k": "aggregate", "agg": "adt", "path": "core::result::Result", "variant": 1, "vname": "Err", "args": dty.get("args", []), "is_enum": True,
+                            "ops": [{"k": "move", "place": {"local": ol, "proj": [{"k": "downcast", "variant": 1, "name": "Err"}, {"k": "field", "i": 0, "ty": oty["args"][1]}]}}]}
+                rec["blocks"].append({"stmts": [{"k": "assign", "place": copy.deepcopy(t["dest"]), "rv": miss, "line": line}], "term": {"k": "goto", "target": t["target"]}})
+                rec["blocks"].append({"stmts": [], "term": {"k": "unreachable"}})
+                stats.setdefault(rec["path"], []).append("desugar:and_then")
                 changed = True
                 continue
         if c in ("core::result::Result::<T, E>::map_or", "core::option::Option::<T>::map_or") and len(t["args"]) == 3 \
@@ -2503,6 +2568,9 @@ def apply(prog):
                 if any(('"s": "%s"' % k) in json.dumps(rec["blocks"]) for k in named) if len(named) <= 8 else True:
                     if materialise_consts(rec, prog, stats):
                         touched.add(p)
+    for p, rec in recs.items():
+        if lower_int_conversions(rec, stats):
+            touched.add(p)
     for p, rec in recs.items():
         for _ in range(6):
             if not (desugar(rec, prog, stats) | desugar_enumerate_over_adaptor(rec, prog, stats) | desugar_adaptor_next(rec, prog, stats) | desugar_repeat_with_take(rec, prog, stats)):
